@@ -624,6 +624,29 @@ pub fn lookup(name: &str) -> Option<OpFn> {
             }
             ok(r)
         },
+        // ---------------------------------------------------------------- C15 (exactly decidable special cases)
+        "o.arc.special" => |a| {
+            let u = a.v3();
+            let one = X::int(1);
+            if !is0(&[u.magnitude2() - one]) { return Out::Skip; }
+            let q1: Quaternion<X> = Rotation::between_vectors(u, u);
+            let mut r = diff(q1, Quaternion::one());
+            r.extend(diff(Quaternion::from_arc(u, u, None), Quaternion::one()));
+            r.extend(diff(Quaternion::from_arc(u * X::int(3), u * X::int(7), None), Quaternion::one()));
+            let b: Basis3<X> = Rotation::between_vectors(u, u);
+            r.extend(diff(Matrix3::from(b), Matrix3::identity()));
+            // exactly opposite: half turn about an axis perpendicular to u (needs |u x e| rational)
+            let mut o = u.cross(Vector3::unit_x());
+            if is0(&[o.magnitude2()]) { o = u.cross(Vector3::unit_y()); }
+            if o.magnitude2().val().exact_sqrt().is_some() {
+                let q: Quaternion<X> = Rotation::between_vectors(u, -u);
+                r.push(q.s);
+                r.push(q.magnitude2() - one);
+                r.extend(diff(q * u, -u));
+                r.push(q.v.dot(u));
+            }
+            ok(r)
+        },
         // ---------------------------------------------------------------- C10
         "o.proj.ortho" => |a| {
             let v: Vec<X> = (0..6).map(|_| a.x()).collect();
@@ -817,7 +840,7 @@ pub fn names() -> Vec<String> {
     let mut v: Vec<String> = ["o.v3.lagrange", "o.v3.cross_cross", "o.v3.cross_orth", "o.v.dot_bilinear",
         "o.m4.constructors", "o.m3.constructors", "o.m.embed", "o.p3.homogeneous",
         "o.q.algebra", "o.q.invert", "o.q.rotate", "o.q.compose", "o.q.same_rotation", "o.q.roundtrip",
-        "o.v1.metric", "o.v2.metric", "o.v3.metric", "o.v4.metric", "o.q.metric", "o.lerp", "o.nlerp.exact", "o.look.rigid", "o.look.2d", "o.euler.product", "o.rot.axis_angle", "o.rad.modular", "o.deg.modular", "o.angle.convert", "o.proj.ortho", "o.proj.frustum", "o.proj.perspective", "o.proj.planar", "o.dq.matrix", "o.db2.matrix", "o.m4.transform", "o.m3.transform",
+        "o.v1.metric", "o.v2.metric", "o.v3.metric", "o.v4.metric", "o.q.metric", "o.arc.special", "o.lerp", "o.nlerp.exact", "o.look.rigid", "o.look.2d", "o.euler.product", "o.rot.axis_angle", "o.rad.modular", "o.deg.modular", "o.angle.convert", "o.proj.ortho", "o.proj.frustum", "o.proj.perspective", "o.proj.planar", "o.dq.matrix", "o.db2.matrix", "o.m4.transform", "o.m3.transform",
         "o.dq.laws", "o.dq.inverse", "o.db3.laws", "o.db3.inverse", "o.db2.laws", "o.db2.inverse"]
         .iter()
         .map(|s| s.to_string())
